@@ -1,3 +1,5 @@
+#define _GNU_SOURCE
+#include <sched.h>
 /* C01/C18 harness: load a topology from a scripted configuration and print the
  * canonical dump.  Script on stdin; several topologies per process:
  *   new / <config lines, see hwv_load.h> / load / dump [flags] / check / destroy / echo <text>
@@ -98,6 +100,14 @@ int main(void)
 #else
       printf("phases rc=-1\n");
 #endif
+    } else if (!strncmp(line, "bindself ", 9)) {
+      /* bindself all | <cpu>[,<cpu>...] : OS binding of this process (what RESTRICT_TO_CPUBINDING looks at) */
+      static cpu_set_t initial; static int have_initial = 0; cpu_set_t set; int rc;
+      if (!have_initial) { sched_getaffinity(0, sizeof(initial), &initial); have_initial = 1; }
+      if (!strcmp(line + 9, "all")) set = initial;
+      else { char *p = line + 9; CPU_ZERO(&set); while (*p) { CPU_SET((int) strtol(p, &p, 10), &set); if (*p == ',') p++; } }
+      rc = sched_setaffinity(0, sizeof(set), &set);
+      printf("bindself rc=%d\n", rc);
     } else if (!strncmp(line, "echo ", 5)) {
       printf("%s\n", line);
     } else if (!strcmp(line, "load")) {
